@@ -840,3 +840,7 @@ Proof.
     destruct (a_len c <? a_goff c + a_size c); [reflexivity|].
     cbn [p_st]. destruct ((a_ep c =? 1) || (a_ep c =? 2)); reflexivity.
 Qed.
+
+(* suite C06order: the pass-through model meets its checker *)
+Lemma C06order_model_ok_lemma : forall os ol, ok_C06order os ol (run_C06order os ol) = true.
+Proof. intros os ol. unfold ok_C06order, run_C06order. rewrite !N.eqb_refl. reflexivity. Qed.
